@@ -37,8 +37,10 @@ func svPreVote(pre *svVotePre, kind int) func(e *svEnv) {
 		pm := ctx.proposalMaster.WithState(ctx.deliver)
 		vs := ctx.validators.WithState(ctx.deliver)
 		// pass percentage of the proposal options (store record and in-memory copy)
-		quick := sv.Tier() == 0
-		if quick {
+		quick := sv.Tier() == 0 || svLean
+		if svLean {
+			pre.pass = 51
+		} else if quick {
 			pre.pass = []int{51, 75}[sv.Choice("prop.pass", 2)]
 		} else {
 			pre.pass = []int{51, 67, 75}[sv.Choice("prop.pass", 3)]
@@ -54,7 +56,9 @@ func svPreVote(pre *svVotePre, kind int) func(e *svEnv) {
 		}
 		ctx.proposalMaster.Proposal.SetOptions(opts)
 
-		if kind == 0 && quick {
+		if svLean {
+			pre.where = []int{0, 2, 3}[sv.Choice("prop.where", 3)] // voting, passed, failed
+		} else if kind == 0 && quick {
 			pre.where = sv.Choice("prop.where", 2) // voting, funding
 		} else {
 			pre.where = sv.Choice("prop.where", 6)
@@ -88,7 +92,7 @@ func svPreVote(pre *svVotePre, kind int) func(e *svEnv) {
 		}
 		for i := 0; i < e.n; i++ {
 			pt := svParty_(i)
-			isVal := i < 2 || sv.Choice("prop.validator"+svPartyName(i), 2) == 0
+			isVal := i < 2 || (!svLean && sv.Choice("prop.validator"+svPartyName(i), 2) == 0)
 			pre.isVal = append(pre.isVal, isVal)
 			op := governance.OPIN_UNKNOWN
 			if isVal {
@@ -100,7 +104,9 @@ func svPreVote(pre *svVotePre, kind int) func(e *svEnv) {
 				if pre.where != 1 && pre.where != 5 {
 					if quick && i == 2 {
 						op = governance.OPIN_UNKNOWN
-					} else if quick && kind == 2 {
+					} else if svLean && pre.where == 0 {
+						op = governance.VoteOpinion(sv.Choice("prop.opinion"+svPartyName(i), 2)) // unknown / yes
+					} else if quick && (kind == 2 || svLean) {
 						// two recorded vectors: (yes, yes) and (no, no)
 						op = governance.VoteOpinion(1 + sv.Choice("prop.opinions", 2))
 					} else {
@@ -288,4 +294,26 @@ func SV_C14_vote_expire_finalize() {
 			sv.Assert(c.V.Cmp(l1.cells[k].V) == 0, "funds-are-distributed-once")
 		}
 	}
+}
+
+// svBuildGov2: a vote / expire / finalise transaction with any roles (the
+// builder used by the generic goals; hostile adds opinions outside the
+// enumeration).
+func svBuildGov2(e *svEnv, kind int, hostile bool) (action.RawTx, []int) {
+	switch kind {
+	case 0:
+		vi, valAddr := svAnyParty("vote.validator", e.n)
+		ai := (vi + sv.Choice("vote.voterOffset", 2)) % e.n
+		nop := 3
+		if hostile {
+			nop = 5
+		}
+		op := governance.VoteOpinion([]int{1, 2, 3, 0, 9}[sv.Choice("vote.opinion", nop)])
+		return svRaw(action.PROPOSAL_VOTE, &action_gov.VoteProposal{ProposalID: svPropID, Address: svParty_(ai).Addr, ValidatorAddress: valAddr, Opinion: op}), []int{ai, vi}
+	case 1:
+		ai, who := svAnyParty("actor", e.n)
+		return svRaw(action.EXPIRE_VOTES, &action_gov.ExpireVotes{ProposalID: svPropID, ValidatorAddress: who}), []int{ai}
+	}
+	ai, who := svAnyParty("actor", e.n)
+	return svRaw(action.PROPOSAL_FINALIZE, &action_gov.FinalizeProposal{ProposalID: svPropID, ValidatorAddress: who}), []int{ai}
 }
